@@ -602,7 +602,28 @@ def callee_anonymous(prog, site):
     ms = meanings(env, node[1], node[2])
     return any(m[1][3] for m in ms)
 
-def shape_of(prog, site, kind=None):
+def keyword_value_fits_anonymous(prog, site, params):
+    """cause of an accepted `wrongArgType a t` mutant: argument `a` of the call at the site is a KEYWORD
+    argument, and an overload of the callee written without parameter names accepts the call with the new
+    literal when all arguments are read by position (the compiler ignores the keyword there: the recorded
+    finding `…|anon-signature`).  Every other accepted wrongArgType mutant stays a violation."""
+    try:
+        a, t = params.split(); a = int(a)
+    except ValueError:
+        return False
+    env, st, node, fdef = locate(prog, site)
+    if node is None or node[0] != "A" or not node[4]: return False
+    n = len(node[3])
+    if a < n - len(node[4]) or a >= n: return False          # not a keyword argument
+    ps = [poss(env, x) for x in node[3]]
+    ps[a] = {t}
+    res = poss(env, node)                                     # the types the context could have asked for
+    for _, s in meanings(env, node[1], node[2]):
+        if s[3] and len(s[1]) == n and s[2] in res and all(p[1] in q for p, q in zip(s[1], ps)):
+            return True
+    return False
+
+def shape_of(prog, site, kind=None, params=""):
     idx = [int(x) for x in site.split(".")] if site != "-" else []
     d = prog[idx[0]] if idx and idx[0] < len(prog) else ("?",)
     where = {"C": "cat", "D": "dom", "F": "functor", "U": "func", "I": "import", "S": "top"}.get(d[0], "?")
@@ -615,6 +636,8 @@ def shape_of(prog, site, kind=None):
         return "anon-signature"
     if kind in ("unknownKeyword", "keywordDupPositional") and callee_single_export(prog, site):
         return "single-export-category"
+    if kind == "wrongArgType" and keyword_value_fits_anonymous(prog, site, params):
+        return "anon-signature"
     return where + ":" + what
 
 # ----------------------------------------------------------------------------- shrinking
@@ -775,7 +798,7 @@ def run_part(ctx, build):
             stats["mutants_rejected"] += 1; pk["rejected"] += 1
             stats["position_" + rule] += 1; pk[rule] += 1
             continue
-        shape = shape_of(p, m["site"], m["kind"])
+        shape = shape_of(p, m["site"], m["kind"], m["params"])
         sig = "typing|%s|%s" % (cls, shape)
         stats["failed"] = stats.get("failed", 0) + 1
         if sig in reported: continue
